@@ -62,12 +62,22 @@ type prog struct {
 	tab [][]act
 	log *[]int64
 	mu  *sync.Mutex
+	div chan struct{} // closed when the event log grows beyond any finite case: the code under test diverges
 }
+
+const divergeAt = 100000
 
 func (p prog) emit(v int64) {
 	p.mu.Lock()
 	*p.log = append(*p.log, v)
+	n := len(*p.log)
 	p.mu.Unlock()
+	if n == divergeAt && p.div != nil {
+		close(p.div)
+	}
+	if n >= divergeAt {
+		select {} // park the diverging goroutine; the harness reports the case
+	}
 }
 
 type custom struct{ x int }
@@ -178,7 +188,7 @@ func TestC06Worker(t *testing.T) {
 	for i := 0; i < n; i++ {
 		mb := 0
 		var logv []int64
-		p := prog{tab: genTab(r, &mb), log: &logv, mu: &sync.Mutex{}}
+		p := prog{tab: genTab(r, &mb), log: &logv, mu: &sync.Mutex{}, div: make(chan struct{})}
 		nb := int(r.Range(1, 8))
 		bodies := make([][]act, nb)
 		for k := range bodies {
@@ -199,25 +209,40 @@ func TestC06Worker(t *testing.T) {
 		st := as.VerifNewIterationState()
 		tt := workers.VerifStateT(st)
 		var outcomes []string
-		crashed, pv := kit.Guard(func() {
-			for k := range bodies {
-				cur = k
-				before := stats.Total()
-				tt.Reset(strconv.Itoa(k + 1))
-				as.Run(st)
-				after := stats.Total()
-				ds := after.SuccessfulIterationDurations.Count - before.SuccessfulIterationDurations.Count
-				df := after.FailedIterationDurations.Count - before.FailedIterationDurations.Count
-				switch {
-				case ds == 1 && df == 0:
-					outcomes = append(outcomes, "F")
-				case ds == 0 && df == 1:
-					outcomes = append(outcomes, "T")
-				default:
-					outcomes = append(outcomes, fmt.Sprintf("%d", 100+ds*10+df))
+		var crashed bool
+		var pv any
+		caseDone := make(chan struct{})
+		go func() {
+			defer close(caseDone)
+			crashed, pv = kit.Guard(func() {
+				for k := range bodies {
+					cur = k
+					before := stats.Total()
+					tt.Reset(strconv.Itoa(k + 1))
+					as.Run(st)
+					after := stats.Total()
+					ds := after.SuccessfulIterationDurations.Count - before.SuccessfulIterationDurations.Count
+					df := after.FailedIterationDurations.Count - before.FailedIterationDurations.Count
+					switch {
+					case ds == 1 && df == 0:
+						outcomes = append(outcomes, "F")
+					case ds == 0 && df == 1:
+						outcomes = append(outcomes, "T")
+					default:
+						outcomes = append(outcomes, fmt.Sprintf("%d", 100+ds*10+df))
+					}
 				}
-			}
-		})
+			})
+		}()
+		select {
+		case <-caseDone:
+		case <-p.div:
+			o.Fail("worker-diverged", "one worker, cleanup table "+encTab(p.tab)+", bodies "+kit.List(mapActs(bodies)...)+": the iteration never ends (more than 100000 cleanup/mark events)")
+			continue
+		case <-time.After(30 * time.Second):
+			o.Fail("worker-stuck", "one worker, cleanup table "+encTab(p.tab)+", bodies "+kit.List(mapActs(bodies)...)+": the iterations did not finish within 30s")
+			return
+		}
 		if crashed {
 			o.Fail("worker-crash", fmt.Sprintf("a panic escaped the iteration: %v", pv))
 		}
@@ -268,7 +293,7 @@ func TestC06Run(t *testing.T) {
 	for i := 0; i < n; i++ {
 		mb := 0
 		var logv []int64
-		p := prog{tab: genTab(r, &mb), log: &logv, mu: &sync.Mutex{}}
+		p := prog{tab: genTab(r, &mb), log: &logv, mu: &sync.Mutex{}, div: make(chan struct{})}
 		setupActs := genActs(r, len(p.tab), 6, &mb, kit.Pick(r, 0, 0, 15, 40))
 		var iters atomic.Int64
 		var lateBody atomic.Int64
@@ -301,7 +326,22 @@ func TestC06Run(t *testing.T) {
 			opts.MaxDuration = 2 * time.Second
 			go func() { time.Sleep(time.Duration(r.Range(0, 30)) * time.Millisecond); cancel() }()
 		}
-		out, hung, dump := runkit.DoTimeout(runkit.Config{Mode: mode, Flags: flags, Scenario: scenario, Opts: opts, Ctx: ctx}, 60*time.Second)
+		var out runkit.Outcome
+		var hung bool
+		var dump string
+		och := make(chan runkit.Outcome, 1)
+		go func() {
+			oc, h, d := runkit.DoTimeout(runkit.Config{Mode: mode, Flags: flags, Scenario: scenario, Opts: opts, Ctx: ctx}, 60*time.Second)
+			hung, dump = h, d
+			och <- oc
+		}()
+		select {
+		case out = <-och:
+		case <-p.div:
+			cancel()
+			o.Fail("run-diverged", "run ("+mode+","+ending+") with cleanup table "+encTab(p.tab)+" and setup "+encActs(setupActs)+": the teardown never ends (more than 100000 cleanup/mark events)")
+			continue
+		}
 		cancel()
 		if hung {
 			o.Fail("run-hung", "Run.Do did not return within 60s ("+mode+","+ending+"): "+dump[:min(len(dump), 2500)])
